@@ -3814,8 +3814,10 @@ func (p *Posix) HeadObject(ctx context.Context, input *s3.HeadObjectInput) (*s3.
 			return nil, fmt.Errorf("get obj versionId: %w", err)
 		}
 		if errors.Is(err, meta.ErrNoSuchKey) {
-			bucket = filepath.Join(p.versioningDir, bucket)
-			object = filepath.Join(genObjVersionKey(object), versionId)
+			// the current version has no version id: it is the null
+			// version (re-basing onto the versioning directory here and
+			// again below made every HEAD ?versionId of such a key fail)
+			vId = []byte(nullVersionId)
 		}
 
 		if string(vId) != versionId {
